@@ -72,5 +72,8 @@ EXTEND = {
                         "on generated record streams against the extracted TabletWire.check_switch_reader (theorem C12_switch_reader_exact on the model's side)"],
             "explanation": "Further engine wire (clause C12.switch_reader): only tablet-mode records are tablet-mode changes"},
     "C12": merge(dev()),
+    "C18": {"clauses": ["DEVICE.key_events"],
+            "trusted": ["realloop engine, clause DEVICE.key_events as well: 'for every batch of output events … one record per event' - a driver or writer that drops, merges or adds key records (not only one that writes malformed ones, C18.real_records) breaks C18; the fixed layout high-codes sends the keys at the upper end of the key table (576, 656, 700) and UNKNOWN (240) through the real reader, driver and writer"],
+            "explanation": "Clause DEVICE.key_events of the realloop engine: every event of a batch arrives as a record"},
     "C19": merge(dev(), SEND),
 }
